@@ -645,6 +645,70 @@ def binary_check(impl, case):
     return None
 
 
+def float_family(ck):
+    """floating-point layers with entries that are CLOSE to special values without being them (near-identity phases and
+    perturbations, tiny and huge entries, non-symmetric matrices in both halves of the layer): every backend, the index-based
+    one included, against the tensordot reference to 1e-12 relative (rounding is ~1e-15; an approximate identity / zero test
+    inside a backend is 1e-5 .. 1e-8)"""
+    import numpy as np
+    from quantum_gates._simulation.backend import StandardBackend, EfficientBackend, BackendForOnes, BinaryBackend
+    rng = np.random.default_rng(ck.seed + 177)
+    fails = []
+
+    def near_id():
+        k = int(rng.integers(4)); eps = float(rng.choice([1e-4, 1e-6, 1e-7, 3e-9]))
+        if k == 0: return np.diag([1.0, np.exp(1j * eps)])                     # a tiny virtual-Z-like phase
+        if k == 1: return np.eye(2) + eps * (rng.normal(size=(2, 2)) + 1j * rng.normal(size=(2, 2)))
+        if k == 2: return np.array([[np.cos(eps), -np.sin(eps)], [np.sin(eps), np.cos(eps)]], complex)   # tiny rotation, not symmetric
+        return np.diag([1.0 + eps, 1.0 - eps]).astype(complex)
+
+    def generic(d):
+        return rng.normal(size=(d, d)) + 1j * rng.normal(size=(d, d))
+
+    for n in ((2, 3, 4, 5, 6, 7, 8) if ck.tier == "quick" else (1, 2, 3, 4, 5, 6, 7, 8, 9, 10)):
+        for rep in range(2 if ck.tier == "quick" else 5):
+            layers = []
+            for _ in range(int(rng.integers(1, 3))):
+                l = []; k = 0
+                while k < n:
+                    r = rng.random()
+                    if k + 1 < n and r < 0.2:
+                        G = generic(4) if rng.random() < 0.6 else np.eye(4) + 1e-7 * generic(4)
+                        l += [G, 1] if rng.random() < 0.5 else [1, G]; k += 2
+                    else:
+                        l.append(near_id() if r < 0.65 else generic(2)); k += 1
+                layers.append(l)
+            psi = rng.normal(size=2 ** n) + 1j * rng.normal(size=2 ** n)
+            items = []
+            for l in layers:
+                q, j = 0, 0
+                while j < len(l):
+                    e = l[j]
+                    if isinstance(e, int):                       # [1, G]
+                        items.append((l[j + 1], [q, q + 1])); q += 2; j += 2
+                    elif e.shape == (4, 4):                      # [G, 1]
+                        items.append((e, [q, q + 1])); q += 2; j += 2
+                    else:
+                        items.append((e, [q])); q += 1; j += 1
+            ref = apply_ref(items, psi.astype(complex), n)
+            tol = 1e-12 * max(1.0, float(np.abs(ref).max()))
+            runs = [("StandardBackend", lambda: StandardBackend(n).statevector(copy.deepcopy(layers), psi.copy())),
+                    ("BackendForOnes", lambda: BackendForOnes(n).statevector(copy.deepcopy(layers), psi.copy())),
+                    ("BinaryBackend", lambda: BinaryBackend(n).statevector([[np.asarray(M, complex), list(q)] for M, q in items], psi.copy()))]
+            if n >= 2:
+                runs.append(("EfficientBackend", lambda: EfficientBackend(n).statevector(copy.deepcopy(layers), psi.copy())))
+            for name, f in runs:
+                ck.count("float_near_special_values", 1, key=(name, n, rep))
+                try:
+                    got = np.asarray(f(), complex).reshape(-1)
+                except Exception as e:  # noqa
+                    fails.append((name, n, "raised %s: %s" % (type(e).__name__, str(e)[:80]))); continue
+                d = float(np.abs(got - ref).max())
+                if not d <= tol:
+                    fails.append((name, n, "differs from the layered product by %.3e (tolerance %.1e) on floating-point layers with near-identity entries" % (d, tol)))
+    return fails
+
+
 def reuse_family(ck):
     """one backend object used for several statevector() calls, with the SAME array objects updated in place between calls
     (identity -> non-identity and back) and with fresh arrays after the old ones were dropped: every call must still return the
@@ -779,6 +843,11 @@ def main(argv):
             if why and (oracle_fail is None or oracle_fail[0]["n"] > case["n"]):
                 oracle_fail = (case, why, "layered")
     ck.extra["impl_wall_s"] = round(time.time() - t_impl, 1)
+    float_fail = float_family(ck)
+    ck.oblige("oracle: floating-point layers with near-identity / non-symmetric entries, all four backends, 1e-12 relative", not float_fail)
+    if float_fail and not oracle_fail:
+        b, n, what = float_fail[0]
+        ck.report("oracle-float", "%s(%d): %s" % (b, n, what), {"backend": b, "n": n, "what": what, "how": "see float_family in checks/c01.py (seed %d)" % ck.seed})
     reuse_fail = reuse_family(ck)
     ck.oblige("oracle: a reused backend object with in-place updated / freshly allocated matrices still returns the layered product", not reuse_fail)
     if reuse_fail and not oracle_fail:
